@@ -222,9 +222,13 @@ func runProperty(o *runOpts, prop string) ([]*FuncResult, error) {
 		dischargeAll(frs, o.timeoutMs, o.workers, o.dump)
 		// an obligation on which every solver ran out of time is tried once more, alone and with
 		// six times the budget, before it is reported: on a loaded machine a timeout says nothing
+		retried := map[string]int{}
 		for _, fr := range frs {
 			for _, ob := range fr.Obligs {
-				if ob.Res.V == Unknown && ob.PC != nil && os.Getenv("GCV_NORETRY") == "" {
+				// (at most two instances per obligation name and eight per run: many timeouts are
+				// not a load problem, and the retries are sequential)
+				if ob.Res.V == Unknown && ob.PC != nil && os.Getenv("GCV_NORETRY") == "" && retried[ob.Name] < 2 && len(retried) < 8 {
+					retried[ob.Name]++
 					r := Discharge(obligBody(ob), 6*o.timeoutMs, false)
 					if r.V != Unknown {
 						r.Solver += "(retry)"
